@@ -16,7 +16,14 @@ def constructor_rows():
     from adaptix import DebugTrail, Retort
     from adaptix.load_error import LoadError
     from pyvc.universe import CELL_NAMES, N_CELLS, rep
-    types = [uuid.UUID, ipaddress.IPv4Address, ipaddress.IPv6Address, ipaddress.IPv4Network, ipaddress.IPv6Network, ipaddress.IPv4Interface,
+    import datetime
+    import decimal
+    import fractions
+    # scalar types whose LAX loader is a builtin itself (lax_coercion_loader=str / bool / ...) are probed the same way; the repository
+    # functions among these loaders are ALSO proved deductively (contracts/concrete_provider.py) — the overlap is harmless
+    scalars = [str, bool, int, float, bytes, bytearray, decimal.Decimal, fractions.Fraction, complex, datetime.date, datetime.time,
+               datetime.datetime, datetime.timedelta, type(None), typing.Any, typing.LiteralString]
+    types = scalars + [uuid.UUID, ipaddress.IPv4Address, ipaddress.IPv6Address, ipaddress.IPv4Network, ipaddress.IPv6Network, ipaddress.IPv4Interface,
              ipaddress.IPv6Interface, pathlib.PurePath, pathlib.Path, pathlib.PurePosixPath, pathlib.PosixPath, pathlib.PureWindowsPath]
     viol, n = [], 0
 
@@ -41,13 +48,13 @@ def constructor_rows():
                     if rogue or (isinstance(e, BaseExceptionGroup) and not isinstance(e, LoadError)):
                         bad.append((CELL_NAMES[i], type((rogue or [e])[0]).__name__))
             if bad:
-                viol.append({"unit": f"constructor loader {tp.__name__}", "clause": "raises-closed",
+                viol.append({"unit": f"constructor loader {getattr(tp, '__name__', str(tp))}", "clause": "raises-closed",
                              "witness": f"{kind}; strict={strict}; {dt.name}; cells={','.join(c for c, _ in bad[:4])}…"[:160],
                              "w": {"input": f"{len(bad)} cells of D, e.g. {bad[0][0]} as {getattr(hint, '__name__', hint)}"[:300],
                                    "native_outcome": f"non-LoadError escapes: {sorted({k for _, k in bad})} on {len(bad)} of {N_CELLS} cells"[:300]}})
     return {"obligations": 0, "discharged": 0, "violations": viol[:60], "solver_time": 0.0,
             "bounded": [{"unit": "stdlib constructors registered as loaders (UUID, ipaddress.*, pathlib.*)",
-                         "bound": f"{n} probes: {len(types)} types x 6 configurations x plain / inside List x all {N_CELLS} cells of D"}],
+                         "bound": f"{n} probes: {len(types)} types (scalars with builtin lax loaders + UUID / ipaddress / pathlib) x 6 configurations x plain / inside List x all {N_CELLS} cells of D"}],
             "samples": [{"constructor_probes": n, "failed_rows": len(viol)}],
             "assumptions": ["stdlib constructor loaders are probed per cell of D (uniformity inside a cell), not executed symbolically"]}
 
